@@ -45,6 +45,9 @@ MUTANTS = {
                                    "            if self._has_rectangular_cross_section():\n"
                                    "                sample_point = new_point3d(minimum(self._vertices[:, 0]) + peak_to_peak(self._vertices[:, 0]) * uniform(), 0.0,\n"
                                    "                                           minimum(self._vertices[:, 1]) + peak_to_peak(self._vertices[:, 1]) * uniform())\n"),
+    # proposed cherab-side guard notes/fixes/C17-2.diff (not a mutant: must leave the check green apart from the listed finding)
+    'guard-triangulation': ('        self._triangles = triangulate2d(self._vertices.base)\n',
+                            "        self._triangles = triangulate2d(self._vertices.base)\n\n        # raysect's ear clipping can return inverted (hence overlapping) triangles when\n        # rounding hides a vertex lying on the edge of a candidate ear. The vertices are\n        # clockwise here, so every triangle must be clockwise (or degenerate) as well.\n        # Refuse the polygon rather than sample emissivities outside the cross section.\n        signed_areas = []\n        for v1_i, v2_i, v3_i in np.asarray(self._triangles):\n            signed_areas.append(\n                (self._vertices[v2_i, 0] - self._vertices[v1_i, 0]) * (self._vertices[v3_i, 1] - self._vertices[v1_i, 1])\n                - (self._vertices[v3_i, 0] - self._vertices[v1_i, 0]) * (self._vertices[v2_i, 1] - self._vertices[v1_i, 1])\n            )\n        if max(signed_areas) > 1e-9 * sum(abs(a) for a in signed_areas):\n            raise RuntimeError('The triangulation of the voxel polygon is inconsistent (inverted triangles). '\n                               'Try listing the polygon starting from a different vertex.')\n"),
     'refactor-harmless': ("        return abs(area) / 2", "        return 0.5 * abs(area)"),
 }
 
